@@ -1,5 +1,5 @@
 From Coq Require Import Extraction ExtrOcamlBasic.
 From CAres.Dsa Require Import Array.
+From CAres.Gen Require Import Consts.
 Extraction Language OCaml.
-Extraction "../ocaml/gen/DsaModel.ml" arr_create arr_len arr_at arr_insertdata_at arr_insertdata_first
-  arr_insertdata_last arr_remove_at arr_remove_first arr_remove_last arr_abs spec_insert spec_remove.
+Extraction "../ocaml/gen/DsaModel.ml" arr_create arr_len arr_abs a_cells a_off arr_step aspec_step arr_run aspec_run arr_finish ARES_ENOMEM.
